@@ -6,6 +6,7 @@ import (
 	"encoding/json"
 	"fmt"
 	"io"
+	"math/rand"
 	"os"
 	"path/filepath"
 	"sort"
@@ -42,7 +43,7 @@ func init() { verifChecks["C06"] = runC06 }
 const (
 	c06SrcAddr = "source:6379"
 	c06TgtAddr = "target:6379"
-	c06Base    = int64(1000)
+	c06Base    = int64(1000) // first stream offset unless the scenario says otherwise
 	c06OldLen  = 8 // commands of history h1 (the one the tool followed before the scenario starts)
 	c06Settle  = 8 * time.Second
 	c06Final   = 20 * time.Second
@@ -52,17 +53,29 @@ const (
 type c06Scenario struct {
 	Chan      string   `json:"chan"`               // disk | mem
 	LogSize   int64    `json:"log_size"`           // cache segment size
+	Base      string   `json:"base,omitempty"`     // offset of the first stream byte: "" = 1000, "0", "1"
 	Src       string   `json:"src"`                // same | fo | new
 	ForkAt    int      `json:"fork_at,omitempty"`  // fo: commands shared by old and new master
 	CurLen    int      `json:"cur_len"`            // commands in the current history at start
 	Trim      int      `json:"trim,omitempty"`     // backlog starts at this command
 	CpID      string   `json:"cp_id,omitempty"`    // "" | A (h1) | B (h2, fo only) | Z (unknown history)
-	CpAt      int      `json:"cp_at,omitempty"`    // stored resume position (command index)
+	CpAt      int      `json:"cp_at,omitempty"`    // stored resume position (command index; -1 = the "nothing yet" placeholder offset -1)
 	CacheID   string   `json:"cache_id,omitempty"` // "" | A | B | Z
 	CacheSnap bool     `json:"cache_snap,omitempty"`
 	CacheL    int      `json:"cache_l,omitempty"`
 	CacheR    int      `json:"cache_r,omitempty"`
 	Events    []string `json:"events,omitempty"`
+}
+
+func (s c06Scenario) base() int64 {
+	if s.Base == "" {
+		return c06Base
+	}
+	n, err := strconv.ParseInt(s.Base, 10, 64)
+	if err != nil {
+		panic("bad base in scenario: " + s.Base)
+	}
+	return n
 }
 
 func (s c06Scenario) String() string {
@@ -191,9 +204,10 @@ func (e *c06Env) prepare() error {
 		return err
 	}
 
-	h1 := sourced.NewHistory(1, c06Base)
+	base := scn.base()
+	h1 := sourced.NewHistory(1, base)
 	h1.Append(c06OldLen)
-	hz := sourced.NewHistory(c06TagZ, c06Base)
+	hz := sourced.NewHistory(c06TagZ, base)
 	hz.Append(c06OldLen)
 	e.hist = map[int]*sourced.History{1: h1, c06TagZ: hz}
 	e.nextTag = 4
@@ -209,13 +223,18 @@ func (e *c06Env) prepare() error {
 		cur.Append(scn.CurLen - scn.ForkAt)
 		e.hist[2] = cur
 	case "new":
-		cur = sourced.NewHistory(3, c06Base)
+		cur = sourced.NewHistory(3, base)
 		cur.Append(scn.CurLen)
 		e.hist[3] = cur
 	default:
 		return fmt.Errorf("unknown source kind %q", scn.Src)
 	}
 	e.src = sourced.New(c06SrcAddr, cur)
+	// virtual; see sourced.Server.DataDelay. Longer than any chain of target round trips
+	// (1 ms each) between the PSYNC reply and the start of cache writer and reader, and
+	// off the 1 ms / 10 ms grid of reply timers and reader polls, so the payload never
+	// arrives at the same virtual instant as a poll.
+	e.src.DataDelay = 200*time.Millisecond + 500*time.Microsecond
 	if scn.Src == "fo" {
 		e.src.SetLineage(h1.ReplID, cur.Off(scn.ForkAt)+1)
 	}
@@ -238,14 +257,18 @@ func (e *c06Env) prepare() error {
 	// stored checkpoint (real checkpoint functions) + the data the target had applied
 	if scn.CpID != "" {
 		h := e.histOf(scn.CpID)
-		if h == nil || scn.CpAt > h.NumCmds() {
+		if h == nil || scn.CpAt > h.NumCmds() || scn.CpAt < -1 {
 			return fmt.Errorf("inconsistent checkpoint in scenario")
+		}
+		cpOff := int64(-1) // the placeholder the start-up sequence itself writes: no position yet
+		if scn.CpAt >= 0 {
+			cpOff = h.Off(scn.CpAt)
 		}
 		cli, err := client.NewRedis(c06RedisCfg(c06TgtAddr))
 		if err != nil {
 			return err
 		}
-		err = checkpoint.SetCheckpoint(cli, &checkpoint.CheckpointInfo{Key: config.CheckpointKey, RunId: h.ReplID, Offset: h.Off(scn.CpAt), Version: config.Version})
+		err = checkpoint.SetCheckpoint(cli, &checkpoint.CheckpointInfo{Key: config.CheckpointKey, RunId: h.ReplID, Offset: cpOff, Version: config.Version})
 		if err == nil {
 			err = checkpoint.SetCheckpointHash(cli, h.ReplID, config.CheckpointKey)
 		}
@@ -253,10 +276,14 @@ func (e *c06Env) prepare() error {
 		if err != nil {
 			return err
 		}
-		for i := 0; i < scn.CpAt; i++ {
-			e.tgt.Put(0, h.Key(i), &redisd.Value{T: 's', Str: []byte("v")})
+		if scn.CpAt >= 0 {
+			// the target holds what it applied: the master's pre-stream data and the writes
+			e.tgt.Put(0, h.PreKey(), &redisd.Value{T: 's', Str: []byte("v")})
+			for i := 0; i < scn.CpAt; i++ {
+				e.tgt.Put(0, h.Key(i), &redisd.Value{T: 's', Str: []byte("v")})
+			}
+			e.applied0 = &c06Pos{H: h, N: scn.CpAt}
 		}
-		e.applied0 = &c06Pos{H: h, N: scn.CpAt}
 	}
 	e.base = e.tgt.NumReqs()
 
@@ -453,7 +480,7 @@ func (e *c06Env) apply(ev string) error {
 	case "new":
 		tag := e.nextTag
 		e.nextTag++
-		h := sourced.NewHistory(tag, c06Base)
+		h := sourced.NewHistory(tag, e.scn.base())
 		h.Append(cur.NumCmds())
 		e.hist[tag] = h
 		e.src.Replace(h)
@@ -519,8 +546,23 @@ func c06Exec(t *testing.T, scn c06Scenario, scratch string, n int) mc.Result {
 	defer os.RemoveAll(dir)
 	msg := bubble(t, func() {
 		vnet.Reset()
+		rand.Seed(1) // the tool's retry jitter (util.jitterUp) draws from the global source
 		env := &c06Env{t: t, scn: scn, dir: dir, t0: time.Now()}
 		env.tgt = redisd.New(c06TgtAddr)
+		// Every reply of the target arrives one VIRTUAL millisecond after the request.
+		// The virtual clock only moves when every goroutine of the bubble is durably
+		// blocked, and a goroutine inside a file-system call is not: so every round trip
+		// to the target is a point where all pending file work (the snapshot writer's
+		// fsync/close/rename, which the tool does not wait for when a run scope is
+		// cancelled) has completed. Without it the order "rename <n>.rdb.tmp -> <n>.rdb"
+		// versus "next connection re-scans the cache directory" was decided by how long
+		// the OS kept the writer's thread inside fsync (load dependent), and the same
+		// history could take two different paths through syncMeta.
+		env.tgt.PlanRef().Hold = true
+		env.tgt.PlanRef().AfterReq = func(r *redisd.Req) {
+			conn := r.Conn
+			time.AfterFunc(time.Millisecond, func() { env.tgt.Release(conn, 0) })
+		}
 		if scn.Chan == "disk" {
 			if err := os.MkdirAll(dir, 0777); err != nil {
 				res = mc.Result{Verdict: "machinery", Clause: err.Error()}
@@ -561,7 +603,7 @@ func c06Exec(t *testing.T, scn c06Scenario, scratch string, n int) mc.Result {
 				continue
 			}
 			k := string(r.Argv[1])
-			if strings.HasPrefix(k, "snap:") || (len(k) > 1 && k[0] == 'h' && k[1] >= '0' && k[1] <= '9') {
+			if strings.HasPrefix(k, "snap:") || strings.HasPrefix(k, "pre:") || (len(k) > 1 && k[0] == 'h' && k[1] >= '0' && k[1] <= '9') {
 				rec.items = append(rec.items, c06Item{Seq: r.Seq, Snap: r.Txn == 0, Key: k})
 			}
 		}
@@ -768,7 +810,7 @@ func (rec *c06Record) describe(extra map[string]interface{}) map[string]interfac
 		del = append(del, fmt.Sprintf("#%d %s", it.Seq, s))
 	}
 	d := map[string]interface{}{"psyncs": ps, "delivered": del, "timeline": e.marks, "final": rec.final, "run_exits": e.exits,
-		"offsets": fmt.Sprintf("command i occupies [%d+%d*i, +%d)", c06Base, sourced.CmdLen, sourced.CmdLen)}
+		"offsets": fmt.Sprintf("command i occupies [%d+%d*i, +%d)", e.scn.base(), sourced.CmdLen, sourced.CmdLen)}
 	for k, v := range extra {
 		d[k] = v
 	}
@@ -970,6 +1012,9 @@ func (rec *c06Record) judge() mc.Result {
 		return viol("the target was not brought up to the source's current position within the horizon", "not-caught-up:"+kind, fin)
 	}
 	var missing []string
+	if e.tgt.Get(0, cur.PreKey()) == nil {
+		missing = append(missing, cur.PreKey())
+	}
 	for i := 0; i < cur.NumCmds(); i++ {
 		if e.tgt.Get(0, cur.Key(i)) == nil {
 			missing = append(missing, cur.Key(i))
@@ -987,7 +1032,11 @@ func (rec *c06Record) judge() mc.Result {
 	// (whether the disk index still lists the snapshot file at the end depends on a race
 	// between the writer's rename and the directory re-scan of the next connection: not hashed)
 	obsParts = append(obsParts, fmt.Sprintf("final|%v|%v", rec.final["cache_left"], rec.final["cache_right"]), fmt.Sprintf("exits=%d", len(e.exits)))
-	c06LastObs = strings.Join(obsParts, " ; ")
+	c06LastObs = strings.Join(obsParts, " ; ") + " ; ms"
+	for _, p := range rec.psyncs {
+		c06LastObs += fmt.Sprintf(" %d", p.Note.(*c06Obs).AtMs)
+	}
+	c06LastObs += fmt.Sprintf(" ; target requests %d", e.tgt.NumReqs())
 	return mc.OK(mc.Hash(obsParts...), len(rec.psyncs) > 0 && len(rec.items) > 0, e.events)
 }
 
@@ -1077,13 +1126,39 @@ func c06Triples(tier string) []c06Scenario {
 			}
 		}
 	}
+	// Young masters: the stream starts at offset 0 (a master that never had a replica
+	// answers +FULLRESYNC <id> 0) or 1. Snapshot offsets 0 and 1, positions 0 and -1:
+	// the values where "nothing applied yet" and "at the first offset" are neighbours.
+	lowSrcs := []c06SrcSpec{{"same", 0, 8, 0}, {"fo", 4, 9, 0}, {"new", 0, 0, 0}}
+	lowCps := []c06CpSpec{{"", 0}, {"A", -1}, {"A", 0}, {"A", 1}}
+	lowCaches := []c06CacheSpec{{"", false, 0, 0}, {"A", true, 0, 0}, {"A", true, 0, 2}, {"A", false, 0, 2}}
+	if tier == "thorough" {
+		lowSrcs = append(lowSrcs, c06SrcSpec{"same", 0, 8, 2}, c06SrcSpec{"fo", 0, 3, 0}, c06SrcSpec{"new", 0, 8, 0})
+		lowCps = append(lowCps, c06CpSpec{"A", 2}, c06CpSpec{"B", 0}, c06CpSpec{"B", -1}, c06CpSpec{"Z", 0})
+		lowCaches = append(lowCaches, c06CacheSpec{"A", true, 0, 8}, c06CacheSpec{"A", true, 1, 1}, c06CacheSpec{"A", true, 1, 3}, c06CacheSpec{"B", true, 0, 2}, c06CacheSpec{"Z", true, 0, 2})
+	}
+	for _, chn := range []string{"disk", "mem"} {
+		for _, base := range []string{"0", "1"} {
+			for _, s := range lowSrcs {
+				for _, cp := range lowCps {
+					for _, ca := range lowCaches {
+						if !c06Consistent(s, cp, ca) {
+							continue
+						}
+						out = append(out, c06Scenario{Chan: chn, LogSize: 1 << 20, Base: base, Src: s.Kind, ForkAt: s.ForkAt, CurLen: s.CurLen, Trim: s.Trim,
+							CpID: cp.ID, CpAt: cp.At, CacheID: ca.ID, CacheSnap: ca.Snap, CacheL: ca.L, CacheR: ca.R})
+					}
+				}
+			}
+		}
+	}
 	return out
 }
 
 // c06Seed selects the triples that get the deeper event sequences: one representative
 // per (source kind, checkpoint class, cache class).
 func c06Seed(s c06Scenario) bool {
-	if s.LogSize != 1<<20 || s.Trim != 0 {
+	if s.LogSize != 1<<20 || s.Trim != 0 || s.Base != "" {
 		return false
 	}
 	switch {
